@@ -107,7 +107,12 @@ func judgeSafely(p Property, sc *Scenario) (v *Verdict) {
 		}
 	}()
 	capturedSince()
+	inconclusiveOps = 0
 	v = p.Judge(sc)
+	if inconclusiveOps > 0 && v.Trouble == "" {
+		// never report on the strength of an operation that was merely too slow to finish
+		v = &Verdict{OK: true, NotJudged: "inconclusive: an operation was cut off by the wall-clock backstop", Sig: v.Sig, Evals: v.Evals, Stats: v.Stats}
+	}
 	if leaked := capturedSince(); leaked != "" {
 		v.stat("probe.output-on-real-descriptor")
 		if sc.Prop == "C04" {
